@@ -150,6 +150,32 @@ func (px *c15Proxier) leg(v ssa.Value, depth int) int {
 	return legUnknown
 }
 
+// throughParams: a parameter of a helper of the service stands for the value every in-reach call site passes for it.
+func (px *c15Proxier) throughParams(v ssa.Value, depth int) ssa.Value {
+	pr, ok := v.(*ssa.Parameter)
+	if !ok || depth > 4 || pr.Parent() == px.sv.Handle {
+		return v
+	}
+	idx := paramIdx(pr)
+	var got ssa.Value
+	for _, g := range px.reach {
+		for _, call := range Calls(g) {
+			if call.Common().StaticCallee() != pr.Parent() || idx >= len(call.Common().Args) {
+				continue
+			}
+			a := px.throughParams(c15Root(call.Common().Args[idx]), depth+1)
+			if got != nil && got != a {
+				return v
+			}
+			got = a
+		}
+	}
+	if got == nil {
+		return v
+	}
+	return got
+}
+
 // wrapperLeg: a call with exactly one stream-like argument (bufio.NewReader(conn), NewTypeWriterReadCloser(ch),
 // readMessage(conn, buf)) belongs to that argument's leg.
 func (px *c15Proxier) wrapperLeg(cc *ssa.CallCommon, depth int) int {
@@ -328,12 +354,12 @@ func c15Dial(c *Ctx, px *c15Proxier) {
 			key := fmt.Sprintf("%s: Director.Dial #%d in %s", px.name, nd, shortFn(fn))
 			recvOK := false
 			if x, ok := isFieldLoadNamed(cc.Value, fname); ok {
-				r := c15Root(x)
+				r := px.throughParams(c15Root(x), 0)
 				if pr, isP := r.(*ssa.Parameter); isP && pr == px.sv.Handle.Params[0] {
 					recvOK = true
 				}
 			}
-			argOK := len(cc.Args) == 1 && px.leg(cc.Args[0], 0) == legClient && c15Root(cc.Args[0]) == ssa.Value(px.conn)
+			argOK := len(cc.Args) == 1 && px.leg(cc.Args[0], 0) == legClient && px.throughParams(c15Root(cc.Args[0]), 0) == ssa.Value(px.conn)
 			switch {
 			case !recvOK:
 				c.Violate("dial-only-through-director", key, p.InstrPos(call), "Dial is invoked on something other than the director stored in this service by SetDirector: "+Render(cc.Value))
